@@ -262,8 +262,11 @@ def sentinels_and_options(ctx):
     ctx.ob(ok, u, 'the configured sentinel is tested on every item: %s' % [norm(t.ast) for t in tests])
     if tests:
         t = tests[0]
-        nxt = [s for s, lab in t.succ if lab == 'true']
-        ok = len(nxt) == 1 and isinstance(nxt[0].ast, ast.Return)
+        # on the sentinel edge nothing more is yielded and no further item is fetched
+        ylds = {n for n in cfg.nodes if n.kind == 'stmt' and any(isinstance(x, (ast.Yield, ast.YieldFrom)) for x in ast.walk(n.ast))}
+        hdrs = set(t.loop_stack)
+        on_true = lambda lab: lab == 'true'
+        ok = cfg.find_path(t, ylds | hdrs, start_labels=on_true) is None
         ctx.ob(ok, u, 'the sentinel (or STOP) ends the stream')
     option_usage(ctx, ['streaming.Iter'])
     # subspec is evaluated on each item in this frame; T means the item itself
